@@ -430,6 +430,13 @@ mutant("c15-recycled-space-not-resized", "C15", "C15.flow.frame-reset", MGEN,
        "            data.resize(data.capacity(), 0);\n            vec_pool.push(data);\n            suffixes.slots.clear();\n            suffixes.slots.resize(suffixes.slots.capacity(), None);\n            suffix_pool.push(suffixes);\n        });\n    }\n\n    fn window_size",
        "            vec_pool.push(data);\n            suffixes.slots.clear();\n            suffixes.slots.resize(suffixes.slots.capacity(), None);\n            suffix_pool.push(suffixes);\n        });\n    }\n\n    fn window_size")
 
+# ---- late twins for the newest rules ------------------------------------------------------------------
+LSDF = "ruzstd/src/decoding/literals_section_decoder.rs"
+benign("c01-jump-table-or", ["C01", "C03", "C13"], LSDF, "        let jump1 = source[0] as usize + ((source[1] as usize) << 8);", "        let jump1 = source[0] as usize | ((source[1] as usize) << 8);")
+benign("c02-pool-push-after-store-reset", ["C02", "C15", "C16"], MGEN,
+       "            data.resize(data.capacity(), 0);\n            vec_pool.push(data);\n            suffixes.slots.clear();\n            suffixes.slots.resize(suffixes.slots.capacity(), None);\n            suffix_pool.push(suffixes);\n        });\n    }\n\n    fn window_size",
+       "            data.resize(data.capacity(), 0);\n            suffixes.slots.clear();\n            suffixes.slots.resize(suffixes.slots.capacity(), None);\n            vec_pool.push(data);\n            suffix_pool.push(suffixes);\n        });\n    }\n\n    fn window_size")
+
 # the frame header's little-endian fields read with from_le_bytes of fresh zeroed arrays (the correct twin of seed C09-c)
 patch_case("le-fields-from-le-bytes", "benign", ["C01", "C03", "C09", "C10", "C11", "C14"], "selftest/patches/benign-le-from-bytes.diff")
 
